@@ -83,7 +83,7 @@ mod verif_kani {
     /// the violation is reported as new.
     #[kani::proof]
     #[kani::unwind(17)]
-    fn c08_clause_del_known_defect() {
+    fn c08_known_defect_del_clause() {
         let (u, g, o): (bool, bool, bool) = (kani::any(), kani::any(), kani::any());
         let (r, w, x): (bool, bool, bool) = (kani::any(), kani::any(), kani::any());
         kani::assume(u || g || o);
